@@ -90,6 +90,18 @@ func (hs *ChainedHotStuff) VoteRule(_ hotstuff.View, proposal hotstuff.ProposeMs
 	hash := block.QuorumCert().BlockHash()
 	qcBlock, haveQCBlock := hs.blockchain.Get(hash)
 
+	// Processing this block moves the lock to the block certified by qcBlock's QC (see CommitRule).
+	// If that block cannot be obtained the lock cannot be moved, and voting without moving the
+	// lock is unsafe: refuse to vote.
+	if haveQCBlock {
+		if lockHash := qcBlock.QuorumCert().BlockHash(); lockHash != (hotstuff.Hash{}) {
+			if _, ok := hs.blockchain.Get(lockHash); !ok {
+				hs.logger.Debug("VoteRule: block to lock on is not available")
+				return false
+			}
+		}
+	}
+
 	safe := false
 	if haveQCBlock && qcBlock.View() > hs.bLock.View() {
 		safe = true
